@@ -45,6 +45,14 @@ Theorem C12_entries :
 Proof. exact render1_entries. Qed.
 Print Assumptions C12_entries.
 
+(* the InvalidArgsError / InvalidReturnError message: exactly one line per failure (predicate, type,
+   coercion, missing-key, unknown-keys, custom error) and one header line per container node, for every
+   error tree and at every indentation - nothing is merged, dropped or repeated *)
+Theorem C12_message_one_line_per_entry :
+  forall i l, length (msg_levels l i) = failures i + headers i.
+Proof. exact msg_levels_count. Qed.
+Print Assumptions C12_message_one_line_per_entry.
+
 Section Example.
   Local Open Scope Z_scope.
   Definition iv := Scalar KInt None [] [PMin (VInt 0) false] [].
@@ -61,6 +69,9 @@ Section Example.
     split; [vm_compute; reflexivity|]. split; [vm_compute; reflexivity|].
     intros nd Hin. cbn in Hin. repeat (destruct Hin as [<-|Hin]; [reflexivity|]). destruct Hin.
   Qed.
+  Example C12_nonvacuous_message :
+    msg_levels 0 tree = [0; 1; 2; 3; 2]%nat /\ failures tree = 2%nat /\ headers tree = 3%nat.
+  Proof. repeat split; vm_compute; reflexivity. Qed.
   (* a user-defined predicate is outside the renderer's table: TypeError, as in the implementation *)
   Example C12_user_predicate_raises :
     render_all (Invalid (PredicateErrs [PRSync (PUser 0)]) VNone iv) = RTRaise ExType.
